@@ -480,6 +480,42 @@ pub fn judge_x(
             model_out: String::new(),
         });
     };
+    // C04: the frame pointer convention and the leaf assumption, stated directly (reference
+    // semantics; framehop's sanity checks are the guards, as in the C04 theorems)
+    if let Ok((s, _, _, _)) = out {
+        let sp = c.regs.sp();
+        let bp = c.regs.bp();
+        let uses_fp = matches!(c.rule, UnwindRuleX86_64::UseFramePointer)
+            || (!c.first && matches!(c.rule, UnwindRuleX86_64::JustReturnIfFirstFrameOtherwiseFp));
+        let is_leaf = c.first && matches!(c.rule, UnwindRuleX86_64::JustReturnIfFirstFrameOtherwiseFp);
+        let mut expect: Option<String> = None;
+        if uses_fp {
+            if bp == 0 {
+                expect = Some(format!("done {}", c.regs.show()));
+            } else if let (Some(nsp), Ok(nbp), Some(Ok(ra))) = (bp.checked_add(16), c.mem.read(bp), bp.checked_add(8).map(|a| c.mem.read(a))) {
+                if nsp > sp && ra != 0 {
+                    let mut r = c.regs.r;
+                    r[7] = nsp;
+                    r[6] = nbp;
+                    expect = Some(format!("frame:{} {}", hex(ra), RegsX { ip: ra, r }.show()));
+                }
+            }
+        } else if is_leaf {
+            if let (Some(nsp), Ok(ra)) = (sp.checked_add(8), c.mem.read(sp)) {
+                if ra != 0 {
+                    let mut r = c.regs.r;
+                    r[7] = nsp;
+                    expect = Some(format!("frame:{} {}", hex(ra), RegsX { ip: ra, r }.show()));
+                }
+            }
+        }
+        if let Some(e) = expect {
+            if &e != s {
+                fail(&["C04"], &format!("x64-{}-not-the-convention", if is_leaf { "uncovered-first-frame-leaf" } else { "frame-pointer-step" }),
+                    format!("frame pointer convention / leaf assumption demands {e}"), s);
+            }
+        }
+    }
     match out {
         Err(loc) => fail(
             &["C09"],
@@ -537,6 +573,31 @@ pub fn judge_a(
             model_out: String::new(),
         });
     };
+    if let Ok((s, _, _, _)) = out {
+        let (sp, fp, mask) = (c.regs.sp, c.regs.fp, c.regs.mask);
+        let uses_fp = matches!(c.rule, UnwindRuleAarch64::UseFramePointer)
+            || (!c.first && matches!(c.rule, UnwindRuleAarch64::NoOpIfFirstFrameOtherwiseFp));
+        let strict = matches!(c.rule, UnwindRuleAarch64::UseFramePointer);
+        let is_leaf = c.first && matches!(c.rule, UnwindRuleAarch64::NoOpIfFirstFrameOtherwiseFp);
+        let mut expect: Option<String> = None;
+        if uses_fp {
+            if let (Some(nsp), Some(Ok(lr)), Ok(nfp)) = (fp.checked_add(16), fp.checked_add(8).map(|a| c.mem.read(a)), c.mem.read(fp)) {
+                if nfp == 0 {
+                    expect = Some(format!("done {}", c.regs.show()));
+                } else if nsp > sp && (!strict || nfp > fp) && lr & mask != 0 {
+                    expect = Some(format!("frame:{} {}", hex(lr & mask), RegsA { mask, lr: lr & mask, sp: nsp, fp: nfp }.show()));
+                }
+            }
+        } else if is_leaf && c.regs.lr & mask != 0 {
+            expect = Some(format!("frame:{} {}", hex(c.regs.lr & mask), c.regs.show()));
+        }
+        if let Some(e) = expect {
+            if &e != s {
+                fail(&["C04"], &format!("a64-{}-not-the-convention", if is_leaf { "uncovered-first-frame-leaf" } else { "frame-pointer-step" }),
+                    format!("frame pointer convention / leaf assumption demands {e}"), s);
+            }
+        }
+    }
     match out {
         Err(loc) => fail(
             &["C09"],
